@@ -41,6 +41,10 @@ type ownCtx struct {
 	c    *Ctx
 	spec ownSpec
 	memo map[string]*ownSummary
+	// scopes: handle set of each function currently being analysed (a
+	// closure resolves calls of sibling closures through its parent's set)
+	scopes  map[*ssa.Function]*handleSet
+	relMemo map[*ssa.Function]int // closure -> 0 unknown/in progress, 1 must-release, 2 not
 	// closures analysed: fn -> witness ("" = ok)
 }
 
@@ -48,7 +52,7 @@ func newOwn(c *Ctx, spec ownSpec) *ownCtx {
 	if spec.depth == 0 {
 		spec.depth = 3
 	}
-	return &ownCtx{c: c, spec: spec, memo: map[string]*ownSummary{}}
+	return &ownCtx{c: c, spec: spec, memo: map[string]*ownSummary{}, scopes: map[*ssa.Function]*handleSet{}, relMemo: map[*ssa.Function]int{}}
 }
 
 // aliases of the handle inside one function
@@ -265,25 +269,37 @@ func (o *ownCtx) consumes(fn *ssa.Function, in ssa.Instruction, hs *handleSet, d
 			return true, "sent on a channel"
 		}
 	case *ssa.MakeClosure:
-		captured := false
-		for _, b := range x.Bindings {
-			if hs.is(b) || hs.cells[b] {
-				captured = true
-			}
-		}
-		if captured && depth < o.spec.depth+1 {
-			// a closure takes over the handle only if it releases / hands it on on all its exits
-			cl := x.Fn.(*ssa.Function)
-			if chs := o.closureHandle(fn, cl, hs); chs != nil {
-				if w, _ := o.held(cl, chs, nil, nil, "all", nil, nil, depth+1); w == "" {
-					return true, "captured by a closure that releases or hands it on"
-				}
-			}
-		}
+		// creating a closure is not a hand-over by itself; see the uses below
 	case *ssa.MakeInterface:
 		// boxing alone is not a consumption
 	case ssa.CallInstruction:
 		cc := x.Common()
+		// calling / deferring / spawning a local closure
+		if tg := o.callTargets(fn, x); len(tg) > 0 {
+			all := true
+			for _, t := range tg {
+				if !o.mustRelease(t) {
+					all = false
+				}
+			}
+			if all {
+				return true, "calls a closure that releases or hands on the " + o.spec.what + " on all its paths"
+			}
+		}
+		// a closure that may release, handed to a goroutine / registered as a callback
+		for _, a := range cc.Args {
+			for _, t := range o.closureValues(fn, a) {
+				if o.mayRelease(t, map[*ssa.Function]bool{}) {
+					if _, isGo := in.(*ssa.Go); isGo {
+						return true, "goroutine receives the releasing callback"
+					}
+					k := calleeKey(x)
+					if k == "context.AfterFunc" || k == "time.AfterFunc" {
+						return true, "registered as a cleanup callback"
+					}
+				}
+			}
+		}
 		args := callArgs(x)
 		idx := -1
 		for i, a := range args {
@@ -467,6 +483,9 @@ func returnCarries(ret *ssa.Return, hs *handleSet) bool {
 // held: from the start, can an exit be reached with the handle still owned
 // by this function? exitClass: "all", "error", "success".
 func (o *ownCtx) held(fn *ssa.Function, hs *handleSet, from []ssa.Instruction, fromEdges []CFGEdge, exitClass string, extraCut EdgePred, loopHead ssa.Instruction, depth int) (string, int) {
+	if _, ok := o.scopes[fn]; !ok {
+		o.scopes[fn] = hs
+	}
 	nilEdge := edgeNil(func(v ssa.Value) bool { return hs.is(v) }, true)
 	if exitClass == "all" && errResultIndex(fn) >= 0 {
 		if w, n := o.held(fn, hs, from, fromEdges, "error", extraCut, loopHead, depth); w != "" {
@@ -589,6 +608,9 @@ func (o *ownCtx) summary(callee *ssa.Function, paramIdx int, depth int) *ownSumm
 	s := &ownSummary{}
 	o.memo[key] = s // recursion guard: pessimistic default
 	hs := buildHandleSet(callee, []ssa.Value{callee.Params[paramIdx]}, nil)
+	saveS, saveR := o.scopes, o.relMemo
+	o.reset()
+	defer func() { o.scopes, o.relMemo = saveS, saveR }()
 	w, _ := o.held(callee, hs, nil, nil, "error", nil, nil, depth)
 	s.releasesOnError = w == ""
 	w2, _ := o.held(callee, hs, nil, nil, "success", nil, nil, depth)
@@ -603,6 +625,11 @@ func (o *ownCtx) summary(callee *ssa.Function, paramIdx int, depth int) *ownSumm
 // checkAcquire verifies one acquire site: from the success of the call,
 // every exit (and every re-entry of the acquire in a loop) has consumed the
 // handle. Closures that capture the handle are verified recursively.
+func (o *ownCtx) reset() {
+	o.scopes = map[*ssa.Function]*handleSet{}
+	o.relMemo = map[*ssa.Function]int{}
+}
+
 func (o *ownCtx) checkAcquire(ru *Rule, fn *ssa.Function, acq ssa.CallInstruction, hIdx int) {
 	site := fmt.Sprintf("%s: %s from %s", fnKey(fn), o.spec.what, calleeKey(acq))
 	av, ok := acq.(ssa.Value)
@@ -701,6 +728,7 @@ func (o *ownCtx) checkDerived(ru *Rule, fn *ssa.Function, hs *handleSet, site st
 			return // error not branched on here (tail position); the return carries the object
 		}
 		od := *o
+		od.reset()
 		od.spec.relNames = append(append([]string{}, o.spec.relNames...), "Close", "CloseWithError", "closeWithError", "Reset")
 		w, cnt := od.held(fn, dhs, nil, okEdges, "all", nil, nil, 0)
 		if w != "" {
@@ -816,6 +844,7 @@ func (o *ownCtx) checkParamErrorExits(ru *Rule, fnK string, param string, wrappe
 	if wrappers {
 		hs.addWrappers(fn)
 	}
+	o.reset()
 	w, n := o.held(fn, hs, nil, nil, "error", nil, nil, 0)
 	if w != "" {
 		ru.Fail(key, fn.Pos(), "an error exit is reachable with the "+o.spec.what+" still open", w)
@@ -858,6 +887,7 @@ func (o *ownCtx) checkAcquireErrorExits(ru *Rule, fnK string, acqKeys []string, 
 		if wrappers {
 			hs.addWrappers(fn)
 		}
+		o.reset()
 		errIdx := sig.Results().Len() - 1
 		acqErr := edgeNil(func(v ssa.Value) bool { ci, i := resultOf(v); return ci == acq && i == errIdx }, false)
 		w, n := o.held(fn, hs, []ssa.Instruction{acq.(ssa.Instruction)}, nil, "error", acqErr, nil, 0)
@@ -891,4 +921,138 @@ func isNamedResultCell(fn *ssa.Function, al *ssa.Alloc) bool {
 		}
 	}
 	return false
+}
+
+// closureValues: the function literals a value may denote (a closure, a
+// capture-less literal, or a load of a local cell holding closures).
+func (o *ownCtx) closureValues(fn *ssa.Function, v ssa.Value) []*ssa.Function {
+	switch x := v.(type) {
+	case *ssa.MakeClosure:
+		return []*ssa.Function{x.Fn.(*ssa.Function)}
+	case *ssa.Function:
+		if o.c.Parent(x) != nil {
+			return []*ssa.Function{x}
+		}
+	case *ssa.UnOp:
+		if x.Op != token.MUL {
+			return nil
+		}
+		switch cell := x.X.(type) {
+		case *ssa.Alloc:
+			return closuresStoredIn(fn, cell)
+		case *ssa.FreeVar:
+			// resolve through the defining function's binding
+			parent := o.c.Parent(fn)
+			if parent == nil {
+				return nil
+			}
+			idx := -1
+			for i, fv := range fn.FreeVars {
+				if fv == cell {
+					idx = i
+				}
+			}
+			var out []*ssa.Function
+			allInstrs(parent, func(in ssa.Instruction) {
+				if mc, ok := in.(*ssa.MakeClosure); ok && mc.Fn == ssa.Value(fn) && idx >= 0 {
+					switch b := mc.Bindings[idx].(type) {
+					case *ssa.Alloc:
+						out = append(out, closuresStoredIn(parent, b)...)
+					case *ssa.FreeVar:
+						// two levels up: give up (no such idiom in the tables)
+					}
+				}
+			})
+			return out
+		}
+	}
+	return nil
+}
+
+func closuresStoredIn(fn *ssa.Function, cell *ssa.Alloc) []*ssa.Function {
+	var out []*ssa.Function
+	for _, r := range *cell.Referrers() {
+		if st, ok := r.(*ssa.Store); ok && st.Addr == ssa.Value(cell) {
+			switch v := st.Val.(type) {
+			case *ssa.MakeClosure:
+				out = append(out, v.Fn.(*ssa.Function))
+			case *ssa.Function:
+				out = append(out, v)
+			}
+		}
+	}
+	return out
+}
+
+func (o *ownCtx) callTargets(fn *ssa.Function, call ssa.CallInstruction) []*ssa.Function {
+	cc := call.Common()
+	if cc.IsInvoke() {
+		return nil
+	}
+	return o.closureValues(fn, cc.Value)
+}
+
+// handleIn: the handle set of a closure, derived from its defining function's set.
+func (o *ownCtx) handleIn(cl *ssa.Function) *handleSet {
+	if hs, ok := o.scopes[cl]; ok {
+		return hs
+	}
+	parent := o.c.Parent(cl)
+	if parent == nil {
+		return nil
+	}
+	phs := o.handleIn(parent)
+	if phs == nil {
+		return nil
+	}
+	chs := o.closureHandle(parent, cl, phs)
+	o.scopes[cl] = chs // may be nil: the closure does not capture the handle itself
+	return chs
+}
+
+// mustRelease: on every exit the closure released / handed on the handle,
+// directly or by calling another closure that must release.
+func (o *ownCtx) mustRelease(cl *ssa.Function) bool {
+	switch o.relMemo[cl] {
+	case 1:
+		return true
+	case 2, 3:
+		return false // 3: in progress (cycle)
+	}
+	o.relMemo[cl] = 3
+	chs := o.handleIn(cl)
+	if chs == nil {
+		chs = &handleSet{vals: map[ssa.Value]bool{}, cells: map[ssa.Value]bool{}}
+		o.scopes[cl] = chs
+	}
+	w, _ := o.held(cl, chs, nil, nil, "all", nil, nil, 1)
+	if w == "" {
+		o.relMemo[cl] = 1
+		return true
+	}
+	o.relMemo[cl] = 2
+	return false
+}
+
+// mayRelease: some path of the closure releases (directly or through a closure it calls).
+func (o *ownCtx) mayRelease(cl *ssa.Function, seen map[*ssa.Function]bool) bool {
+	if seen[cl] {
+		return false
+	}
+	seen[cl] = true
+	chs := o.handleIn(cl)
+	found := false
+	allInstrs(cl, func(in ssa.Instruction) {
+		if chs != nil && o.isRelease(in, chs) {
+			found = true
+		}
+		if ci, ok := in.(ssa.CallInstruction); ok {
+			for _, t := range o.callTargets(cl, ci) {
+				if o.mayRelease(t, seen) {
+					found = true
+				}
+			}
+		}
+	})
+	return found
 }
